@@ -674,3 +674,8 @@ V('C11', 'separator-search-from-one', SEGWIT, "pos = bech.rfind('1')", "pos = be
 V('C03', 'filler-value-zero', SCRIPT, 'txtmp.vout.append(bitcoin.core.CTxOut())', 'txtmp.vout.append(bitcoin.core.CTxOut(0))', 'C03.D1', scope='RawSignatureHash')
 V('C13', 'compression-flag-arms-exchanged-only', WALLET, "(b'\\x01' if compressed else b'')", "(b'' if compressed else b'\\x01')", 'C13.L1', scope='CBitcoinSecret.from_secret_bytes')
 V('C16', 'enumerate-from-one', CORE, 'for index, out in enumerate(self.vtx[0].vout):', 'for index, out in enumerate(self.vtx[0].vout, 1):', 'UNDECIDED:C16.D1', scope='CBlock.get_witness_commitment_index')
+
+# ------------------------------------------------------------------------------------------------ look-alike defects, second batch (round 11)
+V('C19', 'blockhash-handler-catches-base-class', RPC, "        except InvalidParameterError as ex:\n            raise IndexError('%s.getblockhash(): %s (%d)' %", "        except JSONRPCError as ex:\n            raise IndexError('%s.getblockhash(): %s (%d)' %", 'C19.H1', scope='Proxy.getblockhash')
+V('C03', 'hashtype-appended-unsigned', SCRIPT, 's += struct.pack(b"<i", hashtype)', 's += struct.pack(b"<I", hashtype)', 'C03.D1', scope='RawSignatureHash')
+V('C03', 'none-loop-starts-at-one', SCRIPT, "        txtmp.vout = []\n\n        for i in range(len(txtmp.vin)):", "        txtmp.vout = []\n\n        for i in range(1, len(txtmp.vin)):", 'C03.D1', scope='RawSignatureHash')
